@@ -242,6 +242,7 @@ func c08Key(c *Ctx, m map[string]interface{}, key string, choices []int) (nontri
 		c.Violate("Map.ValuesForKey", "panic", shape, cas, choices, st)
 		return
 	}
+	c.RetainVal("Map.ValuesForKey", got, cas)
 	gotD := sortedCopy(dumpSeq(got))
 	if err != nil || !eqStrings(gotD, expD) {
 		c.Violate("Map.ValuesForKey", "values", shape, cas, choices, fmt.Sprintf("map=%s key=%q\n expected=%v\n   actual=%v err=%v", jsonOf(m), key, expD, gotD, err))
@@ -283,6 +284,7 @@ func c08Key(c *Ctx, m map[string]interface{}, key string, choices []int) (nontri
 		c.Violate("Map.PathsForKey", "panic", shape, cas, choices, st)
 		return len(exp) > 0
 	}
+	c.RetainVal("Map.PathsForKey", paths, cas)
 	seen := map[string]bool{}
 	okPaths := len(paths) == len(expP)
 	for _, p := range paths {
@@ -468,7 +470,7 @@ func c08PathFilter(c *Ctx, m map[string]interface{}, path string, specs []string
 
 func c08Run(c *Ctx) {
 	mustBeDefault(c)
-	c.S.Rule = "part 1 (search): every Map template with <= N nodes over keys {a,bbbb,k} plus the sibling family {a:[M1,M2]} (Mi every map template with <= 4 nodes over {a,k}) (lists, list-in-list, empty containers, unique leaves) x keys {a,b,k,z,*}: ValuesForKey/ValueForKey vs reference, PathsForKey as a set, PathForKeyShortest minimal, and values-through-paths = ValuesForKey. part 2 (filters): every Map template with <= M nodes over keys {a,k} with typed leaves {\"s\",1,true} x key/path x every set of 1..2 sub-key conditions over {a (maybe present), z (absent)} x {matching, non-matching, *} x {untyped, :string, :bool, :num} x {plain, negated}, under field separators ':' and '|': filtered result = maps of the unfiltered result satisfying the reference predicate. Each case runs under ascending and descending map order; cases that range over >= 2 keys are also explored under every single order deviation (E-choice bound 1). non-trivial = key present (part 1) / filter keeps a proper non-empty subset (part 2)."
+	c.S.Rule = "part 1 (search): every Map template with <= N nodes over keys {a,bbbb,k} plus the sibling family {a:[M1,M2]} (Mi every map template with <= 4 nodes over {a,k}) (lists, list-in-list, empty containers, unique leaves) x keys {a,b,k,z,*}: ValuesForKey/ValueForKey vs reference, PathsForKey as a set, PathForKeyShortest minimal, and values-through-paths = ValuesForKey. part 2 (filters): every Map template with <= M nodes over keys {a,k} with typed leaves {\"s\",1,true} x key/path x every set of 1..2 sub-key conditions over {a (maybe present), z (absent)} x {matching, non-matching, *} x {untyped, :string, :bool, :num} x {plain, negated}, under field separators ':' and '|' (plus sub-key texts that are well formed under both separators with different meanings, used under one separator after the other, back and forth): filtered result = maps of the unfiltered result satisfying the reference predicate. Each case runs under ascending and descending map order; cases that range over >= 2 keys are also explored under every single order deviation (E-choice bound 1). Result slices are retained (last 16) and re-checked after every later call. non-trivial = key present (part 1) / filter keeps a proper non-empty subset (part 2)."
 	c.S.Assumptions = []string{"negated condition with a concrete value on an absent key: satisfied and not-satisfied readings both accepted", "reference search/filter semantics in harness/c08.go written from the documentation"}
 	n1, n2, ech := 6, 5, 5
 	if c.Thorough {
@@ -636,6 +638,40 @@ func c08Run(c *Ctx) {
 			}
 		})
 		mxj.SetFieldSeparator()
+	}
+	// the same sub-key text under both separators in one process: "a|s:s" is (key "a|s" = "s") under ':' and
+	// (key "a" = "s:s") under '|'; separators switched back and forth between the calls
+	amb := []string{`{"k":[{"a|s":"s","a":"q"},{"a":"s:s"},{"a|s":"q","a":"s:s"},{"a":"s"}]}`, `{"k":{"a":"s:s","k":[{"a|s":"s"},{"a":"s:s","k":1}]},"a":{"k":{"a|s":"s"}}}`}
+	for _, js := range amb {
+		for _, text := range []string{"a|s:s", "!a|s:s", "a|s:*", "a:s|s", "a|*:x"} {
+			if !c.Mine() {
+				continue
+			}
+			c.S.States++
+			c.S.Evaluations++
+			for round := 0; round < 2; round++ {
+				for _, sep := range []string{":", "|"} {
+					// the text must be a two- or three-field spec under this separator
+					if n := len(strings.Split(text, sep)); n < 2 || n > 3 {
+						continue
+					}
+					mxj.SetFieldSeparator(sep)
+					fsep := ""
+					if sep != ":" {
+						fsep = sep
+					}
+					for _, pol := range []int{rt.PolicySorted, rt.PolicyReverse} {
+						rt.OrderPolicy = pol
+						c08KeyFilter(c, fromJSON(js).(map[string]interface{}), "k", []string{text}, fsep, nil)
+						c08PathFilter(c, fromJSON(js).(map[string]interface{}), "k", []string{text}, fsep, nil)
+						c08PathFilter(c, fromJSON(js).(map[string]interface{}), "k.k", []string{text}, fsep, nil)
+						c.S.Schedules += 3
+					}
+					rt.OrderPolicy = rt.PolicySorted
+				}
+			}
+			mxj.SetFieldSeparator()
+		}
 	}
 	// sub-key sets with two conditions under every order of the condition table (E-choice) on a small family
 	small := []string{`{"k":[{"a":"s","b":1},{"a":"q"},{"b":1}]}`, `{"k":{"a":"s"},"a":{"k":{"a":true}}}`}
